@@ -131,6 +131,22 @@ func (f *Frame) scanLhs(e ast.Expr, t *Targets) {
 func (f *Frame) scanNode(n ast.Node, t *Targets, seen map[*ast.FuncDecl]bool, depth int) {
 	info := f.info()
 	ast.Inspect(n, func(n ast.Node) bool {
+		// ghost statements attached to this statement write too (ghost counters updated inside a loop body)
+		if s, ok := n.(ast.Stmt); ok && f.fi != nil && !f.spec && len(f.fi.Ghost) > 0 {
+			if _, isBlock := s.(*ast.BlockStmt); !isBlock {
+				text := normSpace(f.vc.srcText(f.pk, s))
+				for _, g := range f.fi.Ghost {
+					if strings.HasPrefix(text, g.Anchor) && !seen[g.Decl] && depth < 6 {
+						seen[g.Decl] = true
+						sub := &Frame{vc: f.vc, pk: g.Pkg, tsub: f.tsub}
+						gt := newTargets()
+						sub.scanNode(g.Decl.Body, gt, seen, depth+1)
+						t.absorbCallee(gt)
+						delete(seen, g.Decl)
+					}
+				}
+			}
+		}
 		switch n := n.(type) {
 		case *ast.AssignStmt:
 			for _, l := range n.Lhs {
@@ -705,11 +721,24 @@ func (f *Frame) rangeLoop(st *State, s *ast.RangeStmt, label string) []Outcome {
 		set(s.Value, v)
 	}
 	switch u := xt.Underlying().(type) {
-	case *types.Slice, *types.Array, *types.Basic:
+	case *types.Slice, *types.Array, *types.Basic, *types.Signature:
 		var n Term
 		var seq Term
 		isInt := false
-		if b, ok := u.(*types.Basic); ok {
+		var iterElem types.Type
+		if sig, ok := u.(*types.Signature); ok {
+			// range over an iterator function (producer protocol): the loop runs over the ghost sequence the
+			// iterator yields, vs.YieldSeq(it), which the iterator's contract describes. Trusted (stated in the
+			// evidence): the sequence does not depend on what the loop body does.
+			iterElem = f.iterElemType(sig)
+			if iterElem == nil || s.Value != nil {
+				vc.fail(s.Pos(), "range over a function is supported only for func(yield func(T) bool)")
+			}
+			it := f.expr(st, s.X)
+			seq = vc.define("rangeX", f.yieldSeq(it, iterElem))
+			n = SLen(seq)
+			vc.dropped["range over an iterator function: executed over the sequence its contract yields (the body is assumed not to influence the iterator)"]++
+		} else if b, ok := u.(*types.Basic); ok {
 			if b.Info()&types.IsInteger == 0 {
 				vc.fail(s.Pos(), "range over %s", b)
 			}
@@ -747,15 +776,22 @@ func (f *Frame) rangeLoop(st *State, s *ast.RangeStmt, label string) []Outcome {
 				} else {
 					v := Select(SArr(seq), i)
 					var et types.Type
-					if sl, ok := u.(*types.Slice); ok {
-						et = sl.Elem()
-					} else {
-						et = u.(*types.Array).Elem()
+					switch x := u.(type) {
+					case *types.Slice:
+						et = x.Elem()
+					case *types.Array:
+						et = x.Elem()
+					default:
+						et = iterElem
 					}
 					for _, fact := range f.typeFacts(b, v, et) {
 						vc.assume(b, fact)
 					}
-					bindKV(b, &i, &v)
+					if iterElem != nil {
+						bindKV(b, &v, nil) // `for x := range it` binds the yielded value
+					} else {
+						bindKV(b, &i, &v)
+					}
 				}
 			},
 			s.Body.List,
@@ -889,4 +925,28 @@ func (f *Frame) calleeEntryRef(pre *State, cm calleeMod, stableExpr func(ast.Exp
 		res = ef.expr(pre.clone(), root)
 	}()
 	return res, ok
+}
+
+// iterElemType: T for func(yield func(T) bool), else nil.
+func (f *Frame) iterElemType(sig *types.Signature) types.Type {
+	if sig.Params().Len() != 1 || sig.Results().Len() != 0 {
+		return nil
+	}
+	y, ok := sig.Params().At(0).Type().Underlying().(*types.Signature)
+	if !ok || y.Params().Len() != 1 || y.Results().Len() != 1 {
+		return nil
+	}
+	return f.subst(y.Params().At(0).Type())
+}
+
+// yieldSeq: the (ghost) sequence an iterator value yields - an uninterpreted function of the iterator.
+func (f *Frame) yieldSeq(it Term, elem types.Type) Term {
+	vc := f.vc
+	es := f.sortOf(elem)
+	name := "yieldseq_" + mangle(es)
+	if !vc.ufs[name] {
+		vc.ufs[name] = true
+		vc.funDecls = append(vc.funDecls, fmt.Sprintf("(declare-fun %s (%s) %s)", name, it.Sort, SliceSort(es)))
+	}
+	return app(SliceSort(es), name, it)
 }
